@@ -561,6 +561,7 @@ def run(ctx):
             if partial == "True":
                 ctx.count("c16.partial.True")
             lab = "base.axpy:%s%s:%s" % (kx, ky, "partial" if partial == "True" else "full")
+            ctx.count("c16.base.axpy." + lab.split(":", 1)[1])
             f = lambda: do("axpy(%s, %s%s)" % (x, y, kw(alpha=scal_src(tc), partial=partial)), lab)
             if partial == "True" and ky == "s":
                 pattern_unchanged(y, lab, f)
@@ -581,6 +582,7 @@ def run(ctx):
             if partial == "True":
                 ctx.count("c16.partial.True")
             lab = "base.gemm:%s%s%s:%s" % (ka, kb, kc, "partial" if partial == "True" else "full")
+            ctx.count("c16.base.gemm.%s%s%s.%s%s" % (ka, kb, kc, tA, tB))
             f = lambda: do("gemm(%s, %s, %s%s)" % (A, B, C, kw(transA=repr(tA) if tA != "N" or rng.random() < 0.3 else None,
                                                                transB=repr(tB) if tB != "N" or rng.random() < 0.3 else None,
                                                                alpha=scal_src(tc), beta=scal_src(tc), partial=partial)), lab)
@@ -602,6 +604,7 @@ def run(ctx):
             if partial == "True":
                 ctx.count("c16.partial.True")
             lab = "base.syrk:%s%s:%s" % (ka, kc, "partial" if partial == "True" else "full")
+            ctx.count("c16.base.syrk.%s%s.%s%s" % (ka, kc, uplo, trans))
             f = lambda: do("syrk(%s, %s%s)" % (A, C, kw(uplo=repr(uplo) if uplo != "L" or rng.random() < 0.3 else None,
                                                        trans=repr(trans) if trans != "N" or rng.random() < 0.3 else None,
                                                        alpha=scal_src(tc), beta=scal_src(tc), partial=partial)), lab)
@@ -638,7 +641,10 @@ def run(ctx):
                       m=m if sub else rng.choice([None, None, -1]), n=n if sub else None,
                       incx=incx if incx != 1 else None, incy=incy if incy != 1 else None,
                       offsetA=offA if sub else None, offsetx=ox if ox else None, offsety=oy if oy else None)
-            do("gemv(%s, %s, %s%s)" % (A, x, y, args), "base.gemv:%s:%s%s" % (ka, trans, ":sub" if sub else ""))
+            ctx.count("c16.base.gemv.%s.%s%s" % (ka, trans, ".sub" if sub else ""))
+            if incx < 0 or incy < 0:
+                ctx.count("c16.base.gemv.negative-increment")
+            do("gemv(%s, %s, %s%s)" % (A, x, y, args), "base.gemv:%s" % ("sparse-A" if ka == "s" else "dense-A"))
 
         def g_symv():
             n = rng.choice([0, 1, 2, 3, 4])
@@ -656,7 +662,8 @@ def run(ctx):
             args = kw(uplo=repr(uplo) if uplo != "L" or rng.random() < 0.3 else None, alpha=scal_src("d"), beta=scal_src("d"),
                       incx=incx if incx != 1 else None, incy=incy if incy != 1 else None,
                       offsetx=ox if ox else None, offsety=oy if oy else None)
-            do("symv(%s, %s, %s%s)" % (A, x, y, args), "base.symv:%s:%s" % (ka, uplo))
+            ctx.count("c16.base.symv.%s.%s" % (ka, uplo))
+            do("symv(%s, %s, %s%s)" % (A, x, y, args), "base.symv:%s" % ("sparse-A" if ka == "s" else "dense-A"))
 
         GENS = [(g_spmatrix, 10), (g_sparse, 5), (g_spdiag, 3), (g_dense, 2), (g_alias, 3),
                 (lambda: g_getitem(False), 7), (lambda: g_getitem(True), 8), (lambda: g_setitem(False), 8),
